@@ -22,6 +22,7 @@ type tracer struct {
 	txns   map[*fstxn.FsTxn]int
 	aborts int
 	limit  int
+	dirty  bool // some transaction since the last checkpoint committed buffers (or a shrinker ran)
 }
 
 var tracers sync.Map // *fstxn.FsState -> *tracer
@@ -48,6 +49,9 @@ func installHook() {
 			t.evs = append(t.evs, fmt.Sprintf("r%d:%d", id, arg))
 		case 3:
 			t.evs = append(t.evs, fmt.Sprintf("c%d:%d", id, arg))
+			if op.Atxn.Op.NDirty() > 0 {
+				t.dirty = true
+			}
 		case 4:
 			t.evs = append(t.evs, fmt.Sprintf("d%d:%d", id, arg))
 		case 5:
